@@ -17,6 +17,7 @@ import (
 	"github.com/libp2p/go-libp2p-kad-dht/internal/vmc"
 	"github.com/libp2p/go-libp2p-kad-dht/internal/vmc/kid"
 	"github.com/libp2p/go-libp2p-kad-dht/internal/vmc/sim"
+	"github.com/libp2p/go-libp2p-kad-dht/internal/vmc/vsync"
 )
 
 // C14 (refresh manager): Close in every interleaving with a running refresh (queries and pings
@@ -77,6 +78,13 @@ func c14rRun(x *vmc.X, cfg vmc.Cfg) {
 		rt.TryAddPeer(kid.Peer([]string{"1", "00"}[i], 1), true, false)
 	}
 	s := vmc.NewSched(x)
+	// the window between a WaitGroup waiter's wake-up and its return is a scheduling point (vsync contract check)
+	vsync.Hook = func(addr any, op string) {
+		if op == "wg-wake" {
+			s.Point("wg-wake")
+		}
+	}
+	defer func() { vsync.Hook = nil }()
 	keygen := func(cpl uint) (string, error) { return fmt.Sprintf("key-%d", cpl), nil }
 	query := func(ctx context.Context, key string) error { s.Point("query " + key); return nil }
 	ping := func(ctx context.Context, p peer.ID) error { s.Point("ping"); return nil }
